@@ -74,6 +74,39 @@ func vpC17Pair(ka, kb int) {
 	vpReach("end")
 }
 
+// every vocabulary type that carries published/updated, populated through its own struct fields,
+// with every other instant of the type (startTime, endTime, deleted) set to a far-future decoy: the
+// key is read from published/updated and from nowhere else, whatever the concrete type
+var vpC17Decoy = time.Date(2999, 1, 1, 0, 0, 0, 0, time.UTC)
+
+func vpC17Typed(ti int) (Item, vpKey, bool) {
+	p, kp := vpInstant(false)
+	u, ku := vpInstant(ti%2 == 1)
+	k := kp
+	if vpKeyLess(kp, ku) {
+		k = ku
+	}
+	x := vpNew(ti)
+	if !vpSetInstants(x, p, u, vpC17Decoy) {
+		return nil, k, false
+	}
+	return x, k, true
+}
+
+func vpH_C17_every_type() {
+	ti := vpChoice(len(vpTypeNames))
+	a, keyA, ok := vpC17Typed(ti)
+	if !ok {
+		vpReach("end")
+		return
+	}
+	b, keyB := vpC17Object(0)
+	name := vpTypeNames[ti]
+	vpAssert("every-type/consistent/"+name, ItemOrderTimestamp(a, b) == vpKeyLess(keyB, keyA))
+	vpAssert("every-type/consistent-rev/"+name, ItemOrderTimestamp(b, a) == vpKeyLess(keyA, keyB))
+	vpReach("end")
+}
+
 func vpH_C17_pair_obj()   { vpC17Pair(0, 0) }
 func vpH_C17_pair_mixed() { vpC17Pair(1, 2) }
 func vpH_C17_pair_value() { vpC17Pair(3, 4) }
